@@ -36,6 +36,10 @@ func main() {
 					tag = "only0"
 				case len(t) == 1 && t[0] == 1448:
 					tag = "only1448"
+				case len(t) == 1 && (t[0] == 22 || t[0] == 21 || t[0] == 23):
+					tag = fmt.Sprintf("single-%d", t[0])
+				case len(t) <= 3 && (t[0] == 22 || t[len(t)-1] == 22):
+					tag = fmt.Sprintf("small-with-22-%d", len(t))
 				case len(t) == 1 && t[0] <= 21:
 					tag = "single-small"
 				case len(t) == 1 && t[0] >= 1427:
